@@ -275,6 +275,30 @@ def audit(pid, module=None):
     return res
 
 
+def local_import_closure(module):
+    """project-local modules (Model.*, Proofs.*, Props.*) transitively imported by `module`."""
+    seen, todo = [], [module]
+    while todo:
+        m = todo.pop()
+        if m in seen:
+            continue
+        f = LEAN_DIR / (m.replace(".", "/") + ".lean")
+        if not f.exists():
+            continue
+        seen.append(m)
+        for line in f.read_text().splitlines():
+            mm = re.match(r"^\s*import\s+((?:Model|Proofs|Props)\.[A-Za-z0-9_.]+)", line)
+            if mm:
+                todo.append(mm.group(1))
+    return sorted(seen)
+
+
+def leanchecker(modules):
+    """independent re-check of the compiled .olean files with Lean's external checker (thorough tier)."""
+    rc, out, err = sh(["lake", "env", "leanchecker", *modules], cwd=LEAN_DIR, timeout=3600)
+    return rc == 0, (out + err)[-2000:]
+
+
 def run_driver(pid, requests, timeout=3600):
     """send all requests (list of dicts) to the property's compiled model driver, return responses."""
     if not requests:
@@ -438,6 +462,13 @@ def run_check(chk: PropertyCheck, tier: str, seed: int, replay: str | None = Non
     if ok_build and (bad_axioms or scan_hits or obligations == 0):
         proof_broken.append({"kind": "audit", "bad_axioms": bad_axioms, "scan_hits": scan_hits,
                              "obligations": obligations})
+    rechecked = None
+    if ok_build and tier == "thorough" and not replay:
+        mods = local_import_closure(f"Props.{pid}")
+        ok_lc, lc_log = leanchecker(mods)
+        rechecked = {"modules": mods, "ok": ok_lc}
+        if not ok_lc:
+            proof_broken.append({"kind": "leanchecker", "log_tail": lc_log})
 
     # ---------------------------------------------------------------- 2/3. correspondence + oracle
     load_autoarray()
@@ -539,7 +570,18 @@ def run_check(chk: PropertyCheck, tier: str, seed: int, replay: str | None = Non
         violations.append((write_replay(pid, payload), False))
 
     seen_fail_keys = set()
+    n_minimised = 0
     for c, obs, detail in oracle_fail:
+        if n_minimised >= 25:  # many failures shrinking to few witnesses: enough has been minimised
+            break
+        kf0 = None
+        try:
+            kf0 = chk.known_finding(c, obs)
+        except Exception:
+            kf0 = None
+        if kf0 and kf0 in known_ids and kf0 in known_seen:
+            continue  # this recorded finding has already been reported once in this run
+        n_minimised += 1
         c2, obs2, detail2 = minimise(chk, c, obs, detail)
         k = case_key(c2)
         if k in seen_fail_keys:
@@ -549,8 +591,8 @@ def run_check(chk: PropertyCheck, tier: str, seed: int, replay: str | None = Non
         if len(violations) >= 3:
             break
 
-    unexplained = [x for x in disagreements if case_key(x[0]) not in
-                   {case_key(c) for c, _, _ in oracle_fail}]
+    fail_keys = {case_key(c) for c, _, _ in oracle_fail}
+    unexplained = [x for x in disagreements if case_key(x[0]) not in fail_keys]
     searched = 0
     if (unexplained or proof_broken) and not violations and not replay:
         # failing-input search on the real code with the thorough generators
@@ -621,6 +663,7 @@ def run_check(chk: PropertyCheck, tier: str, seed: int, replay: str | None = Non
             "impl_exception_kinds": impl_errs,
             "known_findings_seen": sorted(known_seen),
             "failing_input_search_cases": searched,
+            "leanchecker": rechecked,
             "exhaustive": bool(getattr(chk, "exhaustive_note", {}).get(tier)),
             "exhaustive_note": getattr(chk, "exhaustive_note", {}).get(tier, ""),
         },
